@@ -395,6 +395,42 @@ pub fn mso_frame_strategy() -> impl Strategy<Value = MutCase> {
 }
 
 
+
+// ------------------------------------------------------------------ the public length -> size byte function itself
+pub struct LengthFn;
+impl Part for LengthFn {
+    type Case = (bool, u64);
+    fn name(&self) -> &'static str {
+        "encode-length-function"
+    }
+    fn check(&self, c: &(bool, u64), ev: &mut Local) -> Result<(), Fail> {
+        let mode = if c.0 { Mode::Compressed } else { Mode::Uncompressed };
+        let len = c.1 as usize;
+        match guard(|| mode.encode_length(len)) {
+            Ok(Ok(b)) => {
+                let announced = if c.0 { b as usize * 4 } else { b as usize };
+                ensure!(
+                    announced == len && len >= 4 && len <= limit(&mode),
+                    "c03:size-byte-wrong:encode_length",
+                    "{} mode: encode_length({len}) = Ok({b:#04x}), which announces {announced} bytes",
+                    mode_name(&mode)
+                );
+                ev.class("size byte");
+            },
+            Ok(Err(_)) => ev.class("refused (error)"),
+            Err(_) => ev.class("refused (panic)"),
+        }
+        ev.nontrivial_distinct();
+        Ok(())
+    }
+    fn to_json(&self, c: &(bool, u64)) -> Value {
+        json!({"compressed": c.0, "len": c.1})
+    }
+    fn from_json(&self, v: &Value) -> Option<(bool, u64)> {
+        Some((v.get("compressed")?.as_bool()?, v.get("len")?.as_u64()?))
+    }
+}
+
 // ------------------------------------------------------------------ sequences on one codec instance
 /// A connection encodes all its packets with one `Codec`. Whatever happened before (refused packets, long packets, short
 /// ones), each successful result must be the single well-formed frame a fresh codec produces for that packet.
@@ -539,7 +575,7 @@ pub fn ver_frame_strategy() -> impl Strategy<Value = MutCase> {
 }
 
 pub fn parts() -> Vec<Box<dyn DynPart>> {
-    vec![Box::new(Counts), Box::new(TextLengths), Box::new(FromImages), Box::new(AcceptedFrames), Box::new(MsoTextStart), Box::new(OneCodec)]
+    vec![Box::new(Counts), Box::new(TextLengths), Box::new(FromImages), Box::new(AcceptedFrames), Box::new(MsoTextStart), Box::new(OneCodec), Box::new(LengthFn)]
 }
 
 pub fn run(run: &mut Run) {
@@ -555,7 +591,8 @@ pub fn run(run: &mut Run) {
         (4) packets decoded from mutated / extended / high-byte-filled frames that the decoder accepted, plus IS_VER frames around free-form \
         version text and IS_MSO frames with any TextStart over codepage-switching text; (5) hand-built MSO with TextStart at every character \
         position of multi-codepage messages around the 128-byte limit; (6) sequences of 1..7 packets, refused ones among them, encoded by \
-        one codec instance (as a connection does): every result must equal what a fresh codec gives for that packet. Non-trivial = every case (each one \
+        one codec instance (as a connection does): every result must equal what a fresh codec gives for that packet; (7) Mode::encode_length for every length 0..=70 000 and \
+        around every integer width: Ok only with the exact size byte, otherwise refused. Non-trivial = every case (each one \
         exercises the encoder on a distinct packet)."
         .into();
     run.assumptions = vec!["element size / header length / count offset of the counted kinds are taken from the specification transcription".into()];
@@ -619,4 +656,20 @@ pub fn run(run: &mut Run) {
     // (6) sequences of packets (refused ones among them) on one codec instance, as a connection uses it
     let n = run.budget(40_000, 2_000_000);
     run.prop(&OneCodec, seq_strategy(), n);
+    // (7) Mode::encode_length directly: every length 0..=70 000 and lengths around every integer width, both modes (complete)
+    let mut lens: Vec<(bool, u64)> = vec![];
+    for compressed in [false, true] {
+        for len in 0..=70_000u64 {
+            lens.push((compressed, len));
+        }
+        for w in [16u32, 17, 18, 24, 31, 32, 33, 34, 48, 63] {
+            for k in 1..=3u64 {
+                for r in 0..=1100u64 {
+                    lens.push((compressed, (k << w).wrapping_add(r)));
+                }
+            }
+        }
+    }
+    let n = lens.len() as u64;
+    run.enumerate(&LengthFn, n, true, |i| Some(lens[i as usize]));
 }
